@@ -31,7 +31,38 @@ def farm_bin(ctx):
     return binp, log
 
 
-def run_farm(ctx, mode, n=0, corpus=False, defs=None, tag="farm", timeout=3000):
+def stored_corpus(pid):
+    """corpus/<pid>/*.json: minimised past disagreements (one definition file each), always run first"""
+    d = os.path.join(vlib.VERIF, "corpus", pid)
+    out = []
+    if os.path.isdir(d):
+        for n in sorted(os.listdir(d)):
+            if n.endswith(".json"):
+                fd = json.load(open(os.path.join(d, n)))
+                fd["kind"] = "corpus"
+                out.append(fd)
+    return out
+
+
+def run_batches(ctx, mode, quick_n, thorough_batches, thorough_n):
+    """the farm of a check: one batch (corpus + quick_n files) in the quick tier, the corpus batch plus
+    thorough_batches batches of thorough_n files (seeds derived from VERIF_SEED) in the thorough tier"""
+    stored = stored_corpus(ctx.pid)
+    if ctx.tier == "quick":
+        return run_farm(ctx, mode, n=quick_n, corpus=True, defs=stored or None)
+    terms, jsons = [], []
+    for b in range(thorough_batches):
+        t, j, err = run_farm(ctx, mode, n=thorough_n, corpus=(b == 0), seed=ctx.seed * 1000 + b, tag="farm%d" % b,
+                             defs=(stored or None) if b == 0 else None)
+        if err:
+            return terms, jsons, err
+        terms += t
+        jsons += j
+        ctx.log("farm batch %d/%d: %d enums" % (b + 1, thorough_batches, len(j)))
+    return terms, jsons, None
+
+
+def run_farm(ctx, mode, n=0, corpus=False, defs=None, tag="farm", timeout=3000, seed=None):
     """one farm batch: returns (terms, jsons, err)"""
     binp, log = farm_bin(ctx)
     if not binp:
@@ -42,6 +73,8 @@ def run_farm(ctx, mode, n=0, corpus=False, defs=None, tag="farm", timeout=3000):
     args = ["-mode", mode, "-n", n, "-repo", ctx.copy_repo(), "-work", work, "-gosum", ctx._farm_sum]
     if corpus:
         args.append("-corpus")
+    if seed is not None:
+        args += ["-seed", seed]
     if defs is not None:
         dp = os.path.join(work, "defs.json")
         with open(dp, "w") as f:
@@ -83,7 +116,7 @@ def keep_lowest(orig):
     return lambda fd: (not has_cells) or lowest_name(fd) == low
 
 
-def minimise(ctx, mode, case_type, judge, j, code, keep=None, rounds=6):
+def minimise(ctx, mode, case_type, judge, j, code, keep=None, rounds=4):
     """delta-debugging on the constants of the failing enum: each round runs one farm batch with
     every candidate definition (one constant or one half removed) and keeps the smallest one
     that is still judged with the same code inside Coq"""
